@@ -98,10 +98,15 @@ fn gen_all(rng: &mut Rng, tier: Tier, n: usize) -> Vec<String> {
 }
 /// sequences of blocking flushes on one thread (see `run_seq`)
 fn seq_cases() -> Vec<String> {
-    [("sync", "plain"), ("tokio", "plain"), ("tokio", "mt"), ("tokio", "ct"), ("sync", "mt")]
+    let mut v: Vec<String> = [("sync", "plain"), ("tokio", "plain"), ("tokio", "mt"), ("tokio", "ct"), ("sync", "mt")]
         .iter()
         .map(|(api, ctx)| format!("(blseq {} {})", api, ctx))
-        .collect()
+        .collect();
+    // calling contexts in sequence on one thread (see `run_ctx_seq`)
+    v.push("(blctx tokio mtndb ct plain mtndb ct)".into());
+    v.push("(blctx tokio ct mtndb plain)".into());
+    v.push("(blctx sync mtndb ct plain)".into());
+    v
 }
 fn gen_flush(rng: &mut Rng, tier: Tier, n: usize) -> Vec<String> {
     let mut v = seq_cases();
@@ -488,9 +493,71 @@ fn run_blocking(line: &str) -> String {
     }
 }
 
+/// `(blctx API CTX…)`: ONE OS thread makes a blocking send and a blocking flush against a healthy receiver from a
+/// SEQUENCE of calling contexts — plain, inside `block_on` of a multi-thread runtime (`mtndb`), inside a
+/// current-thread runtime (`ct`) — one after the other. The calling context belongs to the call, not to the thread:
+/// whatever an earlier call learned about "its" runtime must not be applied to a later one.
+/// output: one `send=…,flush=…` token per context (`ok`/`true` everywhere).
+fn run_ctx_seq(line: &str) -> Option<String> {
+    let s = Sexp::parse(line)?;
+    let (tag, a) = s.as_tagged()?;
+    if tag != "blctx" || a.len() < 2 || a.len() > 7 {
+        return None;
+    }
+    let api = match a[0].as_atom()? {
+        "sync" => Api::Sync,
+        "tokio" => Api::Tokio,
+        _ => return None,
+    };
+    let mut ctxs = Vec::new();
+    for c in &a[1..] {
+        ctxs.push(match c.as_atom()? {
+            "plain" => Ctx::Plain,
+            "mtndb" => Ctx::MtNoDriversBlockOn,
+            "ct" => Ctx::Ct,
+            _ => return None,
+        });
+    }
+    let (sender, receiver): (Sender<Vec<u64>>, Receiver<Vec<u64>>) = emit_batcher::bounded(8);
+    let handle = emit_batcher::sync::spawn("hbatcher_blctx_rx", receiver, |_batch: Vec<u64>| Ok(())).ok()?;
+    let rt_mt = tokio::runtime::Builder::new_multi_thread().worker_threads(1).build().ok()?;
+    let rt_ct = tokio::runtime::Builder::new_current_thread().enable_all().build().ok()?;
+    let mut toks = Vec::new();
+    for (i, ctx) in ctxs.iter().enumerate() {
+        let call = || -> (bool, bool) {
+            let t = Duration::from_secs(5);
+            match api {
+                Api::Sync => (
+                    emit_batcher::sync::blocking_send(&sender, i as u64, t).is_ok(),
+                    emit_batcher::sync::blocking_flush(&sender, t),
+                ),
+                _ => (
+                    emit_batcher::tokio::blocking_send(&sender, i as u64, t).is_ok(),
+                    emit_batcher::tokio::blocking_flush(&sender, t),
+                ),
+            }
+        };
+        let r = hcommon::catch(|| match ctx {
+            Ctx::Plain => call(),
+            Ctx::MtNoDriversBlockOn => rt_mt.block_on(async { call() }),
+            _ => rt_ct.block_on(async { call() }),
+        });
+        toks.push(match r {
+            Some((s, f)) => format!("send={},flush={}", if s { "ok" } else { "err" }, f),
+            None => "panic".to_string(),
+        });
+    }
+    drop(sender);
+    let _ = handle.join();
+    Some(toks.join(" "))
+}
+
 fn run_blocking_inner(line: &str) -> String {
     if line.starts_with("(blseq") {
         return run_seq(line).unwrap_or_else(|| "bad-case".into());
+    }
+    if line.starts_with("(blctx") {
+        return run_ctx_seq(line).unwrap_or_else(|| "bad-case".into());
     }
     let Some(c) = parse(line) else {
         return "bad-case".into();
